@@ -16,6 +16,9 @@ using PoolCount = SlotId;
 
 template <typename T>
 class MemoryPoolList {
+#ifdef BBLANCHON_ARDUINOJSON_VERIF
+  friend struct ::ArduinoJsonVerifInspector;
+#endif
   struct FreeSlot {
     SlotId next;
   };
